@@ -116,7 +116,7 @@ def families_for(pid):
         pm = {}
     extra = []
     for q in pm.get("inherits", []):
-        extra += {"C01": ["ctor", "insrem", "panicsafe"], "C03": ["views", "ctor"]}.get(q, FAMILIES.get(q, []))
+        extra += {"C01": ["ctor", "insrem", "panicsafe", "leak"], "C03": ["views", "ctor"]}.get(q, FAMILIES.get(q, []))
     for f in extra:
         if f not in fams:
             fams.append(f)
